@@ -16,9 +16,10 @@ ASSUMPTIONS = ['refmodel/raster.py (independent readers), refmodel/colors.py (in
                'zlib and struct of CPython',
                'PAM/PPM/XPM colours with alpha are outside the documented domain and not generated',
                'held = held on the renders listed here']
-REQUIRED = ['evaluations', 'renders_checked', 'kind:png', 'kind:pbm', 'kind:pam', 'kind:ppm', 'kind:xbm', 'kind:xpm', 'kind:txt',
+REQUIRED = ['cases_under_python_O', 'evaluations', 'renders_checked', 'kind:png', 'kind:pbm', 'kind:pam', 'kind:ppm', 'kind:xbm', 'kind:xpm', 'kind:txt',
             'kind:ans', 'kind:compact', 'scale_lt_1_refused', 'png_depth:1', 'png_transparent']
 TIMEOUT = {'quick': 3600, 'thorough': 21600}
+OPT_SLICE = {'quick': 120, 'thorough': 1500}     # cases re-run by one more worker under python -O (core.run_sharded)
 
 NAMED = ['black', 'white', 'red', 'blue', 'yellow', 'navy', 'gold', 'Olive', 'DARKRED', 'steelblue', 'grey', 'aliceblue',
          'antiquewhite', 'aqua', 'aquamarine', 'azure', 'yellowgreen', 'whitesmoke']
@@ -95,7 +96,7 @@ def gen_cases(tier, seed):
                 kw['name'] = 'symbol'
         elif kind == 'txt':
             if rng.random() < 0.4:
-                kw['dark'], kw['light'] = rng.choice([('X', '_'), ('#', ' '), ('1', '0'), ('@', '.')])
+                kw['dark'], kw['light'] = rng.choice([('X', '_'), ('#', ' '), ('1', '0'), ('@', '.'), ('0', '1'), ('0', '1'), (' ', '1'), ('1', '1x'[1]), ('a', '0')])
         cases.append({'kind': kind, 'version': v, 'seed': rng.randrange(1 << 30), 'kw': kw})
     # scale < 1 must be refused by every raster kind
     for kind in ('png', 'pbm', 'pam', 'ppm', 'xbm', 'xpm'):
